@@ -435,6 +435,10 @@ func (m *Machine) model(fn *ssa.Function, args []Value, res ssa.Value) *modelRes
 		return &modelRes{v: f.App(constStr(args[0]), term.Bool, args[1].(*term.T), args[2].(*term.T))}
 	case "verif.local/vrt.Same":
 		return &modelRes{v: m.same(args[0], args[1])}
+	case "verif.local/vrt.Named":
+		y := m.freshVar(constStr(args[0]), term.BV(64))
+		m.assume(f.Eq(y, args[1].(*term.T)))
+		return &modelRes{v: y}
 	case "verif.local/vrt.B2I":
 		return &modelRes{v: f.Ite(args[0].(*term.T), f.BVC(64, 1), f.BVC(64, 0))}
 	case "verif.local/vrt.Panics":
@@ -612,15 +616,8 @@ func (m *Machine) logChoice(name string, v int) {
 }
 
 func (m *Machine) freshStr(name string, max int) Value {
-	f := m.F
-	s := &SymStr{Len: m.freshVar(name+".len", term.BV(64))}
-	m.assume(f.ULe(s.Len, f.BVC(64, uint64(max))))
-	for i := 0; i < max; i++ {
-		b := m.freshVar(fmt.Sprintf("%s.b%d", name, i), term.BV(8))
-		m.assume(f.Or(f.ULt(f.BVC(64, uint64(i)), s.Len), f.Eq(b, f.BVC(8, 0))))
-		s.Bytes = append(s.Bytes, b)
-	}
-	return s
+	idx := m.F.Fresh("str:"+name, term.Bool)
+	return m.freshStrAt(name+strings.TrimPrefix(idx.Name, "str:"+name), max)
 }
 
 // freshOf builds an arbitrary value of type t; leaf variables are named path.
